@@ -153,7 +153,9 @@ fn gen_matrix(rng: &mut Rng, tier: Tier) -> Spec {
         // large determinants (needing 2-10 chunks of four 56-bit CRT primes): heavy random diagonal
         // plus a few small off-diagonal entries
         let dim = rng.range(40, if tier == Tier::Quick { 150 } else { 250 }) as usize;
-        let dmax = *rng.pick(&[30i32, 60, 120, 120]);
+        // entries up to the i16 range the sparse format stores: a heavy row lowers the CRT prime size
+        // (primes are chosen below 2^63 / norm), so the number of chunks per determinant bit varies
+        let dmax = *rng.pick(&[30i32, 60, 120, 120, 4000, 30000]);
         let mut rows = vec![];
         for i in 0..dim {
             let mut v = rng.range(2, dmax as u64) as i32;
